@@ -87,7 +87,12 @@ type RunSpec struct {
 	Tasks  [][]Call
 	Policy Policy
 	Trace  *Trace // used when Policy.Kind == "explicit"
-	Est    int64  // estimated fault-free steps of all calls together
+	// ShareInputs: calls of this run that ask the same input are handed the very
+	// same string value (one backing array, allocated at run start), as a server
+	// does with a constant or an interned header value. Otherwise every call gets
+	// its own fresh copy.
+	ShareInputs bool
+	Est         int64 // estimated fault-free steps of all calls together
 }
 
 // Faults counts fault kinds that actually fired.
@@ -294,8 +299,24 @@ func (s *Sim) Run(spec *RunSpec) *RunResult {
 	}
 	s.res.Trace.Mem = s.memLevel
 
+	var shared map[string]string
+	if spec.ShareInputs {
+		shared = map[string]string{}
+	}
 	for i := range spec.Tasks {
 		calls := spec.Tasks[i]
+		var ins []string // built here, on the scheduler goroutine, before any task exists
+		if shared != nil {
+			ins = make([]string, len(calls))
+			for j, c := range calls {
+				v, ok := shared[c.Input]
+				if !ok {
+					v = cloneString(c.Input)
+					shared[c.Input] = v
+				}
+				ins[j] = v
+			}
+		}
 		out := make([]string, len(calls))
 		cs := make([]int64, len(calls))
 		raws := make([]string, len(calls))
@@ -313,7 +334,11 @@ func (s *Sim) Run(spec *RunSpec) *RunResult {
 				s0 := readSteps()
 				// every call gets its own freshly allocated copy of the input, like a
 				// request handler does: the copy becomes garbage when the call returns
-				out[j], raws[j] = exec(calls[j].API, cloneString(calls[j].Input))
+				if ins != nil {
+					out[j], raws[j] = exec(calls[j].API, ins[j])
+				} else {
+					out[j], raws[j] = exec(calls[j].API, cloneString(calls[j].Input))
+				}
 				cs[j] = readSteps() - s0
 				callEnd(t)
 			}
@@ -1266,9 +1291,13 @@ func (s *Sim) dequeueWaiter(w *chanWaiter) {
 func (s *Sim) wake(w *chanWaiter, n int64, val any) {
 	s.dequeueWaiter(w)
 	w.t.state = stRunnable
-	w.t.pend.n = n
+	w.t.pend.n = n | ChanWaited
 	w.t.pend.val = val
 }
+
+// ChanWaited is set in the reply of a channel operation that could not
+// complete when it was requested: the task was woken by whatever completed it.
+const ChanWaited = int64(1) << 40
 
 // ready reports whether case c can proceed now.
 func (s *Sim) chanReady(c selCase) bool {
